@@ -189,6 +189,11 @@ def r_flipshape(f):
     cursors = [t for _, t, fn in b.calls() if fn and fn["name"] == "rows_mut"]
     sw = [t for _, t, fn in b.calls() if fn and fn["path"] in ("core::slice::<impl [T]>::swap_with_slice",)]
     ok = len(cursors) == 1 and set(steps) == {"next", "next_back"} and len(sw) == 1
+    if ok:
+        # ... repeatedly: the swap sits on a cycle of the control-flow graph (an `if let` in place of the `while let` swaps
+        # only the outermost pair)
+        swb = [bi for bi, t, fn in b.calls() if fn and fn["path"] == "core::slice::<impl [T]>::swap_with_slice"]
+        ok = bool(swb) and all(bi in b.reachable(s_) for bi in swb for s_ in b.succs(bi))
     if not ok and len(cursors) == 1 and set(steps) == {"next", "next_back", "len"} and len(sw) == 1:
         # counted form: exactly len()/2 rounds, the count taken from the same cursor before it is advanced
         d = Dfx(b)
@@ -343,6 +348,42 @@ def r_conv(f):
                     R.inst(b0.ident, "field %s = view.%s()" % (nm, nm), okd)
                     if not okd:
                         R.fail(b0.ident, "dims:%s" % nm, "From<%s>: field %s is %s, not the view's own %s()" % (who, nm, show(e), nm), b.where(st["span"]))
+    # constructors that take the cells from the caller reject a buffer of the wrong length for every input: the length guard
+    # (a comparison with data.len() whose failing edge panics) dominates every normal return
+    from .rules_guard import G
+    for ident, ops_ok in (("TooDee::from_vec", ("Eq",)), ("TooDeeView::new", ("Le", "Lt", "Ge", "Gt", "Eq")), ("TooDeeViewMut::new", ("Le", "Lt", "Ge", "Gt", "Eq"))):
+        b = f.get(ident)
+        if b is None:
+            raise AnchorMissing(ident)
+        n += 1
+        g = G(b, f)
+        dom = b.dominators()
+        lg = [(gbi, okb) for (gbi, op, lo, ro, okb) in g.guards() if op in ops_ok and "len(" in (show(lo) + " " + show(ro))]
+        rets = [rb for rb, bl in enumerate(b.blocks) if bl["term"] and bl["term"]["k"] == "return" and not bl["cleanup"] and rb in b.reachable(0)]
+        byp = [rb for rb in rets if not any(okb == rb or okb in dom.get(rb, set()) for _, okb in lg)]
+        ok = bool(lg) and not byp
+        if not lg:
+            # the guard may live in a private helper that receives data.len(): its own guard must dominate its returns, and the
+            # helper call every return here
+            d = Dfx(b)
+            for bi, t, fn in b.calls():
+                hb = f.crate_fn_for_call(fn) if fn else None
+                if hb is None or hb.kind == "Closure" or hb.trait_provided or hb.impl_trait:
+                    continue
+                lens = [i for i, a in enumerate(t["args"]) if any(x[0] == "call" and x[2] == "len" for x in walk(d.expr(a)))]
+                if not lens:
+                    continue
+                hg, hdom = G(hb, f), hb.dominators()
+                hl = [(gbi, okb) for (gbi, op, lo, ro, okb) in hg.guards() if op in ops_ok and any(x == ("param", lens[0] + 1) for x in list(walk(lo)) + list(walk(ro)))]
+                hrets = [rb for rb, bl in enumerate(hb.blocks) if bl["term"] and bl["term"]["k"] == "return" and not bl["cleanup"] and rb in hb.reachable(0)]
+                hbyp = [rb for rb in hrets if not any(okb == rb or okb in hdom.get(rb, set()) for _, okb in hl)]
+                if hl and not hbyp and all(bi == rb or bi in dom.get(rb, set()) for rb in rets):
+                    ok = True
+                    lg = [(bi, t["target"])]
+                    byp = []
+        R.inst(b.ident, "the data-length guard dominates every normal return (%d guards)" % len(lg), ok)
+        if not ok:
+            R.fail(b.ident, "len-guard", "%s can return normally without having compared the dimensions with data.len() (%s): a buffer of the wrong length is accepted for some input instead of panicking" % (b.ident, "an early return precedes the check" if lg else "no such guard"), b.where())
     # derive provenance
     for tr in ("Clone::clone", "PartialEq::eq", "Hash::hash"):
         b = f.get("TooDee as %s" % tr)
@@ -859,3 +900,80 @@ def r_lockstep(f):
     if n == 0:
         R.inconc(b.ident, "no loop with two addressing induction variables (walk written in closed form?)")
     return R, n
+
+
+def r_noshift(f):
+    """R-NOSHIFT: translate_with_wrap may leave without having moved anything only when there is nothing to move: on every
+    exit that no element-moving call can reach, both (normalised) components of `mid` are zero in every {zero, non-zero}
+    state.  An early `return` for `row_mid == num_rows` that forgets the column shift fails this."""
+    from .rules_zero import ZFn
+    R = Result("R-NOSHIFT")
+    if "translate" not in cfg_features(f):
+        return R, 0
+    b = f.get("TranslateOps::translate_with_wrap (provided)")
+    if b is None:
+        raise AnchorMissing("TranslateOps::translate_with_wrap")
+    bd = b.d
+    # the two working copies of mid: locals assigned from (param 2).0 / .1
+    comp = {}
+    for _, _, st in b.stmts():
+        if st["k"] == "assign" and not st["p"]["proj"] and st["rv"]["k"] == "use" and st["rv"]["o"]["k"] in ("copy", "move"):
+            p = st["rv"]["o"]["p"]
+            if p["local"] == 2 and len(p["proj"]) == 1 and p["proj"][0]["k"] == "field":
+                comp[p["proj"][0]["i"]] = st["p"]["local"]
+    if set(comp) != {0, 1}:
+        R.inconc(b.ident, "the components of `mid` are not copied into working locals (written differently)")
+        return R, 0
+    MOVERS = ("rotate_left", "rotate_right", "swap_with_slice", "swap", "reverse", "swap_rows", "swap_cols", "copy_from_slice", "clone_from_slice", "swap_nonoverlapping")
+    move_blocks = [bi for bi, t, fn in b.calls() if fn and fn["name"] in MOVERS]
+    reach_from_move = set()
+    for mb in move_blocks:
+        reach_from_move |= set(b.reachable(mb)) - {mb}
+    # later versions of the two values (`let col_mid = if col_mid == num_cols { 0 } else { col_mid };`): a local one of whose
+    # definitions copies a version belongs to the same component
+    groups = {0: {comp[0]}, 1: {comp[1]}}
+    grew = True
+    while grew:
+        grew = False
+        for _, _, st in b.stmts():
+            if st["k"] == "assign" and not st["p"]["proj"] and st["rv"]["k"] == "use" and st["rv"]["o"]["k"] in ("copy", "move") and not st["rv"]["o"]["p"]["proj"]:
+                for c_ in (0, 1):
+                    if st["rv"]["o"]["p"]["local"] in groups[c_] and st["p"]["local"] not in groups[c_] and b.locals[st["p"]["local"]] == "usize" and b.debug_name(st["p"]["local"]):
+                        groups[c_].add(st["p"]["local"]); grew = True
+    Z = ZFn(bd, {})
+    keys = [("L", l) for c_ in (0, 1) for l in sorted(groups[c_])[:4]]
+    gkeys = {c_: [("L", l) for l in sorted(groups[c_]) if ("L", l) in keys] for c_ in (0, 1)}
+    bad = []
+    nexit = [0]
+
+    def sinks(bb, si, node, states, ks):
+        return
+    IN = Z.run(keys, [], sinks)
+    # the return funnel: blocks that only fall through (goto chains without calls) to `return`
+    funnel = set()
+    changed = True
+    while changed:
+        changed = False
+        for bi, bl in enumerate(bd["blocks"]):
+            if bi in funnel or bl["cleanup"]:
+                continue
+            t = bl["term"]
+            if t and (t["k"] == "return" or (t["k"] == "goto" and t["target"] in funnel)):
+                funnel.add(bi); changed = True
+    preds = b.preds()
+    for e in sorted(funnel):
+        if not any(p_ not in funnel for p_ in preds[e]) and e != 0:
+            continue          # not an entry of the funnel
+        if e in reach_from_move or e in move_blocks:
+            continue
+        nexit[0] += 1
+        for tup in IN[e]:
+            V = dict(zip(keys, tup))
+            triv = [any(V[k] == "Z" for k in gkeys[c_]) for c_ in (0, 1)]
+            if not all(triv):
+                bad.append((e, "Z" if triv[0] else "NZ", "Z" if triv[1] else "NZ"))
+    ok = not bad
+    R.inst(b.ident, "every exit that no element-moving call can reach (%d) is taken only with both components of mid zero" % nexit[0], ok)
+    if bad:
+        R.fail(b.ident, "exit-without-shift", "%s can return without having moved any element while (col_mid, row_mid) may be %s: a pending column or row shift is dropped" % (b.ident, sorted({(x[1], x[2]) for x in bad})), b.where())
+    return R, 1
